@@ -28,7 +28,81 @@ RULE = ("same fault x injection-point enumeration as C05 (steady-state baselines
         "invocations after CLOSED. Non-trivial = the connection closed and was audited; distinct = trace signature")
 
 
+def closed_by_a_subscriber_mid_chunk(ctx: Ctx) -> None:
+    """A subscriber closes the connection from inside its callback - directly, or through an eagerly started task running client.disconnect(force=True)
+    (what an application on Python 3.12's eager task factory does) - while the chunk being parsed still holds further frames: messages, a ping,
+    garbage.  Nothing behind the closing message is delivered to anybody or answered."""
+    from aioesphomeapi import api_pb2 as pb
+    from vf.props import c12
+
+    res = ctx.res
+    idx = 0
+    for framing in ("plain", "noise"):
+        for how in ("force_disconnect", "eager-task-disconnect(force)", "eager-task-disconnect()"):
+            for closing_type in ("SensorStateResponse", "SubscribeLogsResponse", "BluetoothLEAdvertisementResponse"):
+                for trailing in (["state", "state"], ["ping", "state"], ["state", "garbage"]):
+                    idx += 1
+                    if not ctx.mine(idx):
+                        continue
+                    from vf.sim.scenario import Sim  # noqa: PLC0415
+
+                    with Sim() as sim:
+                        live = c12.Live(sim, framing, record_all=False)
+                        live.ensure()
+                        conn, cli = live.conn, live.cli
+                        view = live.view
+                        got: list[tuple[int, str, bool]] = []      # (seq, type, connection already CLOSED?)
+
+                        def on_any(m: Any) -> None:
+                            got.append((sim.next_seq(), type(m).__name__, conn.connection_state.name == "CLOSED"))
+
+                        def closer(m: Any) -> None:
+                            got.append((sim.next_seq(), type(m).__name__ + "(closer)", conn.connection_state.name == "CLOSED"))
+                            if how == "force_disconnect":
+                                conn.force_disconnect()
+                            else:
+                                sim.call("disconnect", lambda: cli.disconnect(force="force" in how), eager=True)
+
+                        conn.add_message_callback(closer, (getattr(pb, closing_type),))
+                        conn.add_message_callback(on_any, (pb.TextSensorStateResponse,))     # (not the closing type: the message being dispatched when the close
+                        #                                                                        happens still reaches its other subscribers - C12)
+                        n_rx = len(live.dconn.received)
+                        dconn = live.dconn
+                        dconn.outbox = []
+                        dconn.send_msg(pb.TextSensorStateResponse(key=1, state="before"))
+                        # (the closing message with a payload, or - every third case - as an empty frame)
+                        fields = {"SensorStateResponse": {"key": 5, "state": 1.5}, "SubscribeLogsResponse": {"message": b"closing"},
+                                  "BluetoothLEAdvertisementResponse": {"address": 77, "rssi": -50}}[closing_type]
+                        dconn.send_msg(getattr(pb, closing_type)(**({} if idx % 3 == 0 else fields)))
+                        for tkind in trailing:
+                            if tkind == "state":
+                                dconn.send_msg(pb.TextSensorStateResponse(key=2, state="behind"))
+                            elif tkind == "ping":
+                                dconn.send_msg(pb.PingRequest())
+                            else:
+                                dconn.send_raw(b"\x42\x42\x42")
+                        out, dconn.outbox = dconn.outbox, None
+                        dconn.deliver_items(out, 0.0)
+                        sim.run_for(0.5 if how.endswith("()") else 0.05)
+                        res.evaluations += 1
+                        res.count("workload/closed-by-a-subscriber-mid-chunk")
+                        res.sig("closed-mid-chunk", framing, how, closing_type, tuple(trailing))
+                        case = {"spec": None, "closed_by_subscriber": {"framing": framing, "how": how, "closing_type": closing_type, "trailing": trailing}}
+                        if how != "eager-task-disconnect()" and conn.connection_state.name != "CLOSED":
+                            res.violation("C08/close-request-ignored/CONNECTED", f"{how} from inside a subscriber left the connection {conn.connection_state.name}", case,
+                                          trace=sim.trace(30))
+                        late = [g for g in got if g[2]]
+                        if late:
+                            res.violation("C08/delivery-after-close", f"{framing}: the connection was closed from inside the delivery of {closing_type} ({how}); delivered "
+                                          f"after the CLOSED state: {[(g[1]) for g in late]}", case, trace=sim.trace(30))
+                        if view.closed_seq is not None:
+                            wrote = [r["name"] for r in dconn.received[n_rx:] if r["seq"] > view.closed_seq]
+                            if wrote:
+                                res.violation("C08/write-after-close", f"after the close from inside the subscriber the device still received {wrote}", case)
+
+
 def shard(ctx: Ctx) -> None:
+    closed_by_a_subscriber_mid_chunk(ctx)
     sweep.standard_sweep(ctx, PROP)
     sweep.same_turn_pairs_sweep(ctx, PROP)
     sweep.stalled_connect_sweep(ctx, PROP)
